@@ -26,7 +26,7 @@ import time
 
 SPEC_DIR = os.path.join(os.path.dirname(os.path.dirname(os.path.abspath(__file__))), 'spec')
 JAR = '/opt/veriftools/tla/tla2tools.jar:/opt/veriftools/tla/CommunityModules-deps.jar'
-NCPU = os.cpu_count() or 4
+NCPU = max(2, (os.cpu_count() or 4) // 2)   # measured: 8 workers beat 16 on this box (state-queue contention)
 
 
 class TLCError(Exception):
